@@ -400,7 +400,8 @@ def repair_dna(dna_sequence, accessor, start_index, observed_length, vt_check=No
             location += 1
         else:
             detected_count += 1
-            split_sequences[-1] = split_sequences[-1][: max(len(split_sequences[-1]) - observed_length + 1, 0)]
+            kept_length = len(split_sequences[-1]) - observed_length + 1  # note: max() is numpy.max in this module.
+            split_sequences[-1] = split_sequences[-1][: kept_length] if kept_length > 0 else ""
             vertex_index = dna_to_number(dna_sequence[location + 1: location + observed_length + 1], is_string=False)
             split_sequences.append(nucleotides[vertex_index % 4])
             index_markers.append(index_queue[location - observed_length: location])
